@@ -12,10 +12,10 @@ CHECKS = {
     "C20": dict(
         category="proof",
         technique="static analysis: MIR term extraction + constant folding over the packed-move layout constants, sibling (getter/setter) agreement, "
-                  "per-path call counting in constructors, aggregate-construction and derive inventory",
+                  "per-path call counting in constructors, aggregate-construction and derive inventory, read-set rule for the derived predicates",
         text="Proof over the 15 layout constants and the wiring of the 10 accessor pairs, 4 bit helpers and 6 constructors: same slot on both "
              "sides, contiguous/wide-enough/disjoint masks, helpers inverse on the domain, OR-only stores at most once per constructor path from "
-             "literal 0, Move values assembled only in by_moving or derived code, Eq/Hash/serde derived on the raw u32. These obligations entail "
+             "literal 0, Move values assembled only in by_moving or derived code, Eq/Hash/serde derived on the raw u32, is_capture/is_promotion/is_castle read only their own attribute. These obligations entail "
              "the attribute round trip for every constructor input in the stated domain, which an exhaustive runtime sweep could only sample per build.",
         design_ref="DESIGN.md section 4, C20",
         note=TB_COMMON + " ciborium round-trips a u32; num_enum into()/try_from_primitive are inverse on discriminants."),
